@@ -50,6 +50,7 @@ func main() {
 	timed("full", func() { e.sectionFull(pool, seed) })
 	timed("keys", func() { e.sectionKeys(pool, seed) })
 	timed("keysets", func() { e.sectionKeysets(pool, seed) })
+	timed("fallback", func() { e.sectionFallback(seed) })
 
 	o.Hist["apis"] = len(e.apis)
 	o.Hist["apis-skipped"] = len(e.skipped)
